@@ -1,2 +1,23 @@
-(* C15 - statements only (proofs pending). *)
-From N2 Require Import Model.All.
+(* C15 - depfiles are read as the compiler wrote them.  Statements only. *)
+From N2 Require Import Model.All Proofs.DepfileSpec.
+From N2 Require Import Proofs.DepfileExamples Proofs.DepfileSafe Proofs.DepfileRound Proofs.DepfileMerge.
+
+Theorem C15_roundtrip : forall d t, spells_d d t -> depfile_parse t = Ok (merge_targets d).
+Proof. exact depfile_roundtrip. Qed.
+Print Assumptions C15_roundtrip.
+
+Theorem C15_deps_all_listed : forall d t, spells_d d t -> exists l, depfile_deps t = Ok l /\ Permutation l (concat (map snd d)).
+Proof. exact depfile_deps_all_listed. Qed.
+Print Assumptions C15_deps_all_listed.
+
+Theorem C15_deps_in_order : forall d t, spells_d d t -> NoDup (map fst d) -> depfile_deps t = Ok (concat (map snd d)).
+Proof. exact depfile_deps_in_order. Qed.
+Print Assumptions C15_deps_in_order.
+
+Theorem C15_total : forall t, (exists m, depfile_parse t = Ok m) \/ (exists e, depfile_parse t = Err e).
+Proof. exact depfile_total. Qed.
+Print Assumptions C15_total.
+
+Theorem C15_pinned_refuted : exists d t, spells_d d t /\ depfile_deps_pinned t <> Ok (concat (map snd d)) /\ exists l, depfile_deps_pinned t = Ok l /\ ~ Permutation l (concat (map snd d)).
+Proof. exact pinned_refuted. Qed.
+Print Assumptions C15_pinned_refuted.
